@@ -4,6 +4,8 @@ import numpy as np
 from common import Fr, enc_q, dec_q, close, rng
 
 LEAN_MODULE = 'PGM.Properties.C09'
+LEAN_EXTRA = ['PGM.Properties.C09G']
+TRANSLATORS = ('py2total',)   # the estimate-the-total block of inference.py / local_inference.py / public_inference.py -> Generated/TotalG.lean
 TRUSTED = ['Lean 4.33 kernel', 'axioms: propext, Classical.choice, Quot.sound',
            'scipy lsmr modelled by its contract (minimum-norm least-squares solution of Q^T v = 1); the model computes it exactly by certified Gauss-Jordan elimination over Q',
            'hand model PGM/Model/Total.lean tied to inference.py:289-304 and its copies (local_inference, public_inference) by this correspondence run',
